@@ -11,10 +11,37 @@ import os
 import sys
 import time
 import traceback
+from typing import Any
 
 
 class _Done(Exception):
     pass
+
+
+def start_reach() -> set[str]:
+    """Function-entry tracer (sys.monitoring, each code object reports once and is then disabled): which functions of
+    the library under test this worker actually executed.  The runner turns an anchored function that no worker
+    reached into an inconclusive verdict."""
+    seen: set[str] = set()
+    mon = getattr(sys, 'monitoring', None)
+    if mon is None:
+        return seen
+    prefix = os.path.join(os.path.realpath(os.environ.get('FVM_REPO', '/repo')), 'src', 'furax') + os.sep
+    tool = 4
+    try:
+        mon.use_tool_id(tool, 'fvm-reach')
+    except ValueError:
+        return seen
+
+    def on_start(code: Any, offset: int) -> Any:
+        fn = code.co_filename
+        if fn.startswith(prefix):
+            seen.add(fn[len(prefix):] + ':' + code.co_qualname)
+        return mon.DISABLE
+
+    mon.register_callback(tool, mon.events.PY_START, on_start)
+    mon.set_events(tool, mon.events.PY_START)
+    return seen
 
 
 def main() -> int:
@@ -35,6 +62,8 @@ def main() -> int:
     os.environ.setdefault('JAX_PLATFORMS', 'cpu')
     faulthandler.enable()
     faulthandler.dump_traceback_later(args.budget * 4 + 600, exit=True)
+
+    reached = start_reach()
 
     import jax
 
@@ -89,7 +118,7 @@ def main() -> int:
         installed = {}
     out = LOG.dump()
     out.update(status=status, error=err, wall_s=time.time() - t0, x64=args.x64, shard=args.shard,
-               installed=installed, part=args.part)
+               installed=installed, part=args.part, reached=sorted(reached))
     with open(args.out, 'w') as f:
         json.dump(out, f, default=str)
     return 0
